@@ -29,6 +29,10 @@ TYPES = {
     "BoxNested": ("Box<Nested>", [('Box::new(Nested { a: 1, b: "n".to_string() })', '{"a":1,"b":"n"}'), ('Box::new(Nested { a: 2, b: String::new() })', '{"a":2,"b":""}')]),
     "I64": ("i64", [("-9223372036854775807i64", "-9223372036854775807"), ("0i64", "0")]),
     "Unit": ("()", [("()", "null"), ("()", "null")]),
+    # a type of the framework's own runtime library as an argument: a handle to another contract (one address with upper-case letters)
+    "RemoteH": ("sylvia::types::Remote<'static, sylvia::cw_std::Empty>",
+                [('sylvia::types::Remote::new(sylvia::cw_std::Addr::unchecked("Ctr-A1"))', '{"addr":"Ctr-A1"}'),
+                 ('sylvia::types::Remote::new(sylvia::cw_std::Addr::unchecked("lower"))', '{"addr":"lower"}')]),
     # u32 arguments carrying a forwarded serde(default): plain, and wrapped in a conditional attribute with a true predicate (C17)
     # (one of the two values is the type's default: an argument holding its default value is still written on the wire)
     "DfltU32": ("u32", [("7u32", "7"), ("0u32", "0")]),
@@ -38,7 +42,7 @@ TYPES = {
 }
 # a JSON value of the wrong type for each argument type
 WRONG = {"u32": '"zz"', "String": "5", "bool": '"zz"', "OptU32": '"zz"', "VecString": "5", "Nested": "5", "Uint128": "true", "Binary": "5", "U128": "true", "GenT": "5", "DfltU32": '"zz"', "DfltU32W": '"zz"',
-         "CoinQ": "5", "Arr4": '"zz"', "MapSU": "5", "OptVecPair": "5", "BoxNested": "5", "I64": '"zz"', "Unit": "5"}
+         "CoinQ": "5", "Arr4": '"zz"', "MapSU": "5", "OptVecPair": "5", "BoxNested": "5", "I64": '"zz"', "Unit": "5", "RemoteH": "5"}
 # attributes written on handler arguments of these types
 PARAM_ATTR = {"DfltU32": "#[serde(default)] ", "DfltU32W": "#[cfg_attr(all(), serde(default))] "}
 
@@ -268,9 +272,10 @@ def remote_src(prog):
                     assoc = ", ItemT = GenVal" if (generic and uses_gen(part)) else ""
                     hty = ctr if handle == "contract" else "dyn %s::%s<Error = ContractError%s>" % (imod(part), part["id"].capitalize(), assoc)
                     trait_mod = "%s::sv" % imod(part)
-                o.append("        { %slet addr = Addr::unchecked(\"target%d\"); let funds = verif_rrt::funds_pool(%d);\n"
+                # (addresses in lower case, all upper case, mixed)
+                o.append("        { %slet addr = Addr::unchecked(\"%s\"); let funds = verif_rrt::funds_pool(%d);\n"
                          "          let remote: Remote<%s> = %s;\n" % (
-                             lets, n % 3, n, hty, "Remote::new(addr.clone())" if val == 0 else "Remote::borrowed(&addr)"))
+                             lets, ("target0", "TARGET1", "Target2")[n % 3], n, hty, "Remote::new(addr.clone())" if val == 0 else "Remote::borrowed(&addr)"))
                 if m["kind"] == "exec" and generic:
                     # (a generic contract's helper traits carry its type parameters: method-call syntax, one trait in scope)
                     o.append("          let w = { use %s::Executor as _; remote.executor().with_funds(funds.clone()).%s(%s).map(|b| b.build()) };\n"
@@ -309,7 +314,7 @@ def remote_src(prog):
         else:
             o.append("          let w = b.map(|b| b.with_label(\"l2\").build2(sylvia::cw_std::Binary::from(b\"salt\".to_vec())));\n"
                      "          remote::instantiate(&vt, seq, %d, \"salted\", %d, \"l2\", \"\", &[], \"c2FsdA==\", vec![%s], w); seq += 1; }\n" % (val, 40 + val, encs))
-    o.append("        { let addr = Addr::unchecked(\"target9\"); let remote: Remote<%s> = Remote::new(addr.clone());\n" % ("Ctr<GenVal>" if prog.get("family") == "generic" else "Ctr") +
+    o.append("        { let addr = Addr::unchecked(\"TARGET9\"); let remote: Remote<%s> = Remote::new(addr.clone());\n" % ("Ctr<GenVal>" if prog.get("family") == "generic" else "Ctr") +
              "          remote::admin(&vt, \"update_admin\", &addr, \"new_adm\", remote.update_admin(\"new_adm\"));\n"
              "          remote::admin(&vt, \"clear_admin\", &addr, \"\", remote.clear_admin()); }\n"
              "        let _ = seq;\n    }\n\n")
